@@ -87,7 +87,7 @@ func CorpusHistories(scratch string, names map[string]bool) ([]*History, []strin
 		}, func(g *Genesis) { easyParams(g); g.Params.SlashRatio = 50 }},
 		// a validator's own stake falls below the minimum while delegations keep its total above it:
 		// it must leave the validator set (the selection is by own stake, the ranking by total power)
-		{"own-stake-falls-below-minimum", 2, 3, 9, func(s *Sim, h int64) []*TxSpec {
+		{"own-stake-falls-below-minimum", 2, 3, 11, func(s *Sim, h int64) []*TxSpec {
 			a := s.User(0)
 			switch h {
 			case 2:
@@ -102,6 +102,8 @@ func CorpusHistories(scratch string, names map[string]bool) ([]*History, []strin
 				}
 			case 7:
 				return []*TxSpec{s.TxStake(s.User(2), a.Addr, 1)}
+			case 8: // if A is still voting it is reported absent once: its record is written again
+				s.scriptMiss = [][]byte{a.Addr}
 			}
 			return nil
 		}, func(g *Genesis) {
